@@ -99,7 +99,7 @@ mod verif_c10 {
         kani::cover!(ok || !ok);
     }
 
-    // @harness id=C10 tier=quick timeout=1200 mem=10
+    // @harness id=C10 tier=thorough timeout=3400 mem=20
     // @bounds prefix 'x' + one symbolic ASCII character (all 128) + suffix '': no panic (Ok or Err)
     #[kani::proof]
     #[kani::unwind(12)]
@@ -119,7 +119,7 @@ mod verif_c10 {
         kani::cover!(ok || !ok);
     }
 
-    // @harness id=C10 tier=quick timeout=1200 mem=10
+    // @harness id=C10 tier=thorough timeout=3400 mem=20
     // @bounds prefix 'x{' + one symbolic ASCII character (all 128) + suffix '}': no panic (Ok or Err)
     #[kani::proof]
     #[kani::unwind(12)]
@@ -139,7 +139,7 @@ mod verif_c10 {
         kani::cover!(ok || !ok);
     }
 
-    // @harness id=C10 tier=quick timeout=1200 mem=10
+    // @harness id=C10 tier=thorough timeout=3400 mem=20
     // @bounds prefix 'x}' + one symbolic ASCII character (all 128) + suffix 'y': no panic (Ok or Err)
     #[kani::proof]
     #[kani::unwind(12)]
@@ -159,7 +159,7 @@ mod verif_c10 {
         kani::cover!(ok || !ok);
     }
 
-    // @harness id=C10 tier=quick timeout=1200 mem=10
+    // @harness id=C10 tier=thorough timeout=3400 mem=20
     // @bounds prefix 'x{a' + one symbolic ASCII character (all 128) + suffix '}y': no panic (Ok or Err)
     #[kani::proof]
     #[kani::unwind(12)]
@@ -179,7 +179,7 @@ mod verif_c10 {
         kani::cover!(ok || !ok);
     }
 
-    // @harness id=C10 tier=quick timeout=1200 mem=10
+    // @harness id=C10 tier=thorough timeout=3400 mem=20
     // @bounds prefix '{a:9' + one symbolic ASCII character (all 128) + suffix '}': no panic (Ok or Err)
     #[kani::proof]
     #[kani::unwind(12)]
@@ -189,7 +189,7 @@ mod verif_c10 {
         kani::cover!(ok || !ok);
     }
 
-    // @harness id=C10 tier=quick timeout=1200 mem=10
+    // @harness id=C10 tier=thorough timeout=3400 mem=20
     // @bounds prefix '{a:<' + one symbolic ASCII character (all 128) + suffix '}': no panic (Ok or Err)
     #[kani::proof]
     #[kani::unwind(12)]
@@ -199,7 +199,7 @@ mod verif_c10 {
         kani::cover!(ok || !ok);
     }
 
-    // @harness id=C10 tier=quick timeout=1200 mem=10
+    // @harness id=C10 tier=thorough timeout=3400 mem=20
     // @bounds prefix '{a:99999' + one symbolic ASCII character (all 128) + suffix '}': no panic (Ok or Err)
     #[kani::proof]
     #[kani::unwind(12)]
@@ -209,7 +209,7 @@ mod verif_c10 {
         kani::cover!(ok || !ok);
     }
 
-    // @harness id=C10 tier=quick timeout=1200 mem=10
+    // @harness id=C10 tier=thorough timeout=3400 mem=20
     // @bounds prefix '{a!' + one symbolic ASCII character (all 128) + suffix '}': no panic (Ok or Err)
     #[kani::proof]
     #[kani::unwind(12)]
@@ -219,7 +219,7 @@ mod verif_c10 {
         kani::cover!(ok || !ok);
     }
 
-    // @harness id=C10 tier=quick timeout=1200 mem=10
+    // @harness id=C10 tier=thorough timeout=3400 mem=20
     // @bounds prefix '{a:.' + one symbolic ASCII character (all 128) + suffix '}': no panic (Ok or Err)
     #[kani::proof]
     #[kani::unwind(12)]
@@ -229,7 +229,7 @@ mod verif_c10 {
         kani::cover!(ok || !ok);
     }
 
-    // @harness id=C10 tier=quick timeout=1200 mem=10
+    // @harness id=C10 tier=thorough timeout=3400 mem=20
     // @bounds prefix '{a:.r' + one symbolic ASCII character (all 128) + suffix '}': no panic (Ok or Err)
     #[kani::proof]
     #[kani::unwind(12)]
@@ -239,7 +239,7 @@ mod verif_c10 {
         kani::cover!(ok || !ok);
     }
 
-    // @harness id=C10 tier=quick timeout=1200 mem=10
+    // @harness id=C10 tier=thorough timeout=3400 mem=20
     // @bounds prefix '{a:.r/' + one symbolic ASCII character (all 128) + suffix '}': no panic (Ok or Err)
     #[kani::proof]
     #[kani::unwind(12)]
@@ -249,7 +249,7 @@ mod verif_c10 {
         kani::cover!(ok || !ok);
     }
 
-    // @harness id=C10 tier=quick timeout=1200 mem=10
+    // @harness id=C10 tier=thorough timeout=3400 mem=20
     // @bounds prefix '{a:.r/b' + one symbolic ASCII character (all 128) + suffix '}': no panic (Ok or Err)
     #[kani::proof]
     #[kani::unwind(12)]
@@ -259,7 +259,7 @@ mod verif_c10 {
         kani::cover!(ok || !ok);
     }
 
-    // @harness id=C10 tier=quick timeout=1200 mem=10
+    // @harness id=C10 tier=thorough timeout=3400 mem=20
     // @bounds prefix '{a' + one symbolic ASCII character (all 128) + suffix '': no panic (Ok or Err)
     #[kani::proof]
     #[kani::unwind(12)]
@@ -269,7 +269,7 @@ mod verif_c10 {
         kani::cover!(ok || !ok);
     }
 
-    // @harness id=C10 tier=quick timeout=1200 mem=10
+    // @harness id=C10 tier=thorough timeout=3400 mem=20
     // @bounds prefix '{a:9' + one symbolic ASCII character (all 128) + suffix '': no panic (Ok or Err)
     #[kani::proof]
     #[kani::unwind(12)]
@@ -279,7 +279,7 @@ mod verif_c10 {
         kani::cover!(ok || !ok);
     }
 
-    // @harness id=C10 tier=quick timeout=1200 mem=10
+    // @harness id=C10 tier=thorough timeout=3400 mem=20
     // @bounds prefix '{a:4294967296' + one symbolic ASCII character (all 128) + suffix '}': no panic (Ok or Err)
     #[kani::proof]
     #[kani::unwind(18)]
@@ -289,7 +289,7 @@ mod verif_c10 {
         kani::cover!(ok || !ok);
     }
 
-    // @harness id=C10 tier=quick timeout=1200 mem=10
+    // @harness id=C10 tier=thorough timeout=3400 mem=20
     // @bounds prefix '{a:99999999999999999999' + one symbolic ASCII character (all 128) + suffix '}': no panic (Ok or Err)
     #[kani::proof]
     #[kani::unwind(28)]
@@ -300,7 +300,7 @@ mod verif_c10 {
     }
 
     // ---- widths up to and beyond u16::MAX: "{a:" + 1..=6 symbolic digits + "}" must yield Ok (value fits) or Err, never panic
-    // @harness id=C10 tier=quick timeout=1800 mem=14
+    // @harness id=C10 tier=thorough timeout=3400 mem=20
     // @bounds "{a:" + d digits (d in 1..=6, each 0..=9 symbolic) + "}": no panic; Ok iff the value fits into u16, and then the parsed width equals the value
     #[kani::proof]
     #[kani::unwind(12)]
@@ -395,7 +395,7 @@ mod verif_c10 {
         pos == want.len()
     }
 
-    // @harness id=C10 tier=quick timeout=1800 mem=14
+    // @harness id=C10 tier=thorough timeout=3400 mem=20
     // @bounds lit1 + "{" + ws + lit2 with lit1, lit2 in 0..=2 symbolic letters from {x, y, '"', ','} and ws in {space, tab, newline, carriage return}: the brace stands for itself and the literal text is preserved in order
     #[kani::proof]
     #[kani::unwind(12)]
@@ -440,7 +440,7 @@ mod verif_c10 {
         std::mem::forget(t);
     }
 
-    // @harness id=C10 tier=quick timeout=1800 mem=14
+    // @harness id=C10 tier=thorough timeout=3400 mem=20
     // @bounds lit1 + "{k" + [":" + align? + width digit? + "!"?] + "}" + lit2, lit1/lit2 in 0..=2 letters from {x, "{{", "}}", newline}: parts = literal(lit1 unescaped), placeholder(k, align, width, truncate), literal(lit2 unescaped) in this order
     #[kani::proof]
     #[kani::unwind(12)]
@@ -570,6 +570,110 @@ mod verif_c10 {
         assert!(before == lit1_len);
         kani::cover!(spec && al == 1 && has_w && tr && n1 == 2 && n2 == 2);
         kani::cover!(!spec && n1 == 0 && n2 == 0);
+        std::mem::forget(t);
+    }
+
+    // ---- fidelity on templates of CONCRETE shape (the trip count of the parser loop and every string length stay concrete;
+    //      only the interesting characters are symbolic). Literal text is read from the parts directly (no expanded()).
+    fn lit_bytes(t: &TabExpandedString) -> &[u8] {
+        match t {
+            TabExpandedString::NoTabs(s) => s.as_bytes(),
+            TabExpandedString::WithTabs { original, .. } => original.as_bytes(),
+        }
+    }
+    fn bytes_are(a: &[u8], want: &[u8]) -> bool {
+        if a.len() != want.len() {
+            return false;
+        }
+        let mut ok = true;
+        let mut i = 0;
+        while i < 6 {
+            if i < want.len() {
+                ok &= a[i] == want[i];
+            }
+            i += 1;
+        }
+        ok
+    }
+
+    // @harness id=C10 tier=quick timeout=1800 mem=12
+    // @bounds "x{" + ws + "y", ws symbolic in {space, tab, newline-free whitespace: space, tab, CR, FF}: Ok, no placeholder, two literal parts "x{"+ws and "y" (the brace stands for itself, the text before it stays before it)
+    #[kani::proof]
+    #[kani::unwind(8)]
+    //@STUBS std
+    fn c10_fidelity_brace_whitespace() {
+        let w: u8 = kani::any();
+        kani::assume(w < 4);
+        let ws = [b' ', b'\t', b'\r', 0x0c][w as usize];
+        let bytes = [b'x', b'{', ws, b'y'];
+        let s = unsafe { std::str::from_utf8_unchecked(&bytes) };
+        let r = Template::from_str_with_tab_width(s, 8);
+        assert!(r.is_ok());
+        let t = r.unwrap();
+        assert!(t.parts.len() == 2);
+        match (&t.parts[0], &t.parts[1]) {
+            (TemplatePart::Literal(a), TemplatePart::Literal(b)) => {
+                assert!(bytes_are(lit_bytes(a), &[b'x', b'{', ws]));
+                assert!(bytes_are(lit_bytes(b), &[b'y']));
+            }
+            _ => assert!(false),
+        }
+        kani::cover!(w == 1);
+        kani::cover!(w == 3);
+        std::mem::forget(t);
+    }
+
+    // @harness id=C10 tier=quick timeout=1800 mem=12
+    // @bounds "{{a}}b": Ok, one literal part "{a}b" (escapes stand for single braces)
+    #[kani::proof]
+    #[kani::unwind(8)]
+    //@STUBS std
+    fn c10_fidelity_escapes() {
+        let r = Template::from_str_with_tab_width("{{a}}b", 8);
+        assert!(r.is_ok());
+        let t = r.unwrap();
+        assert!(t.parts.len() == 1);
+        match &t.parts[0] {
+            TemplatePart::Literal(a) => assert!(bytes_are(lit_bytes(a), b"{a}b")),
+            _ => assert!(false),
+        }
+        std::mem::forget(t);
+    }
+
+    // @harness id=C10 tier=quick timeout=1800 mem=12
+    // @bounds "a" + "{k:" + align + digit + "!}" + newline + "b" with align symbolic in {<,^,>} and the digit symbolic 0..=9: parts = Literal a, Placeholder(k, align, width = digit, truncate), NewLine, Literal b, in this order
+    #[kani::proof]
+    #[kani::unwind(12)]
+    //@STUBS std
+    fn c10_fidelity_placeholder() {
+        let a: u8 = kani::any();
+        kani::assume(a < 3);
+        let d: u8 = kani::any();
+        kani::assume(d <= 9);
+        let bytes = [b'a', b'{', b'k', b':', [b'<', b'^', b'>'][a as usize], b'0' + d, b'!', b'}', b'\n', b'b'];
+        let s = unsafe { std::str::from_utf8_unchecked(&bytes) };
+        let r = Template::from_str_with_tab_width(s, 8);
+        assert!(r.is_ok());
+        let t = r.unwrap();
+        assert!(t.parts.len() == 4);
+        match &t.parts[0] {
+            TemplatePart::Literal(x) => assert!(bytes_are(lit_bytes(x), b"a")),
+            _ => assert!(false),
+        }
+        match &t.parts[1] {
+            TemplatePart::Placeholder { key, align, width, truncate, style, alt_style } => {
+                assert!(bytes_are(key.as_bytes(), b"k"));
+                assert!(matches!((a, align), (0, Alignment::Left) | (1, Alignment::Center) | (2, Alignment::Right)));
+                assert!(*width == Some(d as u16) && *truncate && style.is_none() && alt_style.is_none());
+            }
+            _ => assert!(false),
+        }
+        assert!(matches!(&t.parts[2], TemplatePart::NewLine));
+        match &t.parts[3] {
+            TemplatePart::Literal(x) => assert!(bytes_are(lit_bytes(x), b"b")),
+            _ => assert!(false),
+        }
+        kani::cover!(a == 2 && d == 9);
         std::mem::forget(t);
     }
 }
